@@ -214,6 +214,8 @@ impl LockServer {
             Ok(Ok(listener)) => {
                 info!("Lock acquired");
                 self.listener = Some(listener);
+                #[cfg(pnordahl_monorail_verif)]
+                crate::verif::point("lock.acquired");
                 Ok(self)
             }
             Ok(Err(e)) => {
